@@ -13,7 +13,7 @@ ASSUMPTIONS = ["'received at' = the virtual time of the step() that read the fra
                "frames that count as received from the peer: the SYN-ACK / handshake ACK that establishes the connection and every data, ack and sync frame while it is active"]
 RULE = ("(a) handshakes in which the SYN-ACK is lost 0..11 times (and the handshake therefore takes up to 22 s) followed by traffic or silence; (b) established connections "
         "whose last frame lands -1/0/+1 step around the deadline, timeouts 1..20 s, cadences 5 ms..2 s; (c) idle keepalive connections on a loss-free link for minutes; "
-        "(d) handshake / disconnect attempts against a silent peer. Oracle: timeout only after >= T of silence, timeout within one step after T of silence, "
+        "(d) handshake / disconnect attempts against a silent peer, incl. disconnects issued 0..3.5 s after the handshake from either side (stale handshake timers pending). Oracle: timeout only after >= T of silence, timeout within one step after T of silence, "
         "Error(Timeout) of a handshake/disconnect after exactly 10 resends and not before 22 s, no timeout under keepalive. Non-trivial: a connection was established or a timeout fired.")
 
 def handshake_delay_scenario(r, it, tier):
@@ -71,19 +71,55 @@ def idle_scenario(r, it, tier):
     sim.expect_no_timeout = (max(K, 2000, 600) + 2 * lat // 10**6 + 2 * dt // 10**6 + 1000) < T
     return sim
 
+def early_disconnect_scenario(r, it, tier):
+    """a disconnect request issued 0..3 s after the handshake (stale handshake timers still queued) towards a peer
+    that has just gone silent: the request must be repeated 10 times, 2 s apart, and time out 22 s after its first copy."""
+    sim = EpSim(r, inter=it)
+    cfg = dict(DEFAULT_EP, timeout=r.pick([20000, 30000]))
+    sim.srv(8, 8, 1, cfg)
+    lat = r.pick([0, 10_000_000])
+    nets = {"c2s": Net(latency=lat), "s2c": Net(latency=lat)}
+    sim.nets = nets
+    dt = r.pick([50_000_000, 100_000_000, 250_000_000, 500_000_000])
+    sim.dt = dt
+    sim.set_time(r.pick([0, 5_000_000]))
+    # optionally a slow handshake (lost SYN-ACKs), so that retry timers of the handshake are pending on both sides
+    k = r.pick([0, 0, 1, 2])
+    sim.cli(0, cfg, nets)
+    closed = {"c2s": Net(), "s2c": Net(loss=1000)}
+    for _ in range(200):
+        if sim.dead or len([d for d in sim.log.get((0, "s2c"), []) if d["kind"] == "synack"]) >= k:
+            break
+        sim.run(1, dt, closed)
+    for _ in range(100):
+        if sim.dead or (any(tag == "C" for (_, tag, p, _) in sim.sevents) and any(tag == "C" for (_, tag, _) in sim.cevents.get(0, []))):
+            break
+        sim.run(1, dt, nets)
+    wait = r.pick([0, 300_000_000, 1_000_000_000, 1_700_000_000, 1_900_000_000, 2_500_000_000, 3_500_000_000])
+    if wait:
+        sim.run(max(1, int(wait // dt)), dt, nets)
+    who = r.pick(["sdiscnow", "sdisc", "cdiscnow", "cdisc"])
+    sim.call(who, 0)
+    sim.early = who
+    silent = {"c2s": Net(loss=1000), "s2c": Net(loss=1000)} if who[0] == "s" else {"c2s": Net(loss=1000), "s2c": Net(loss=1000)}
+    sim.run(int(27_000_000_000 // dt) + 4, dt, silent)
+    return sim
+
 def streams(rng, tier, ctx):
-    n = 24 if tier == "quick" else 300
+    n = 36 if tier == "quick" else 360
     it = Interactive("ep")
     cases = []; meta = {}
     try:
         for i in range(n):
             r = rng.fork()
             it.op("=== gen%d" % i)
-            fam = i % 4
+            fam = i % 6
             if fam == 0:
                 sim = handshake_delay_scenario(r, it, tier)
             elif fam == 1:
                 sim = idle_scenario(r, it, tier)
+            elif fam >= 4:
+                sim = early_disconnect_scenario(r, it, tier)
             else:
                 sim = E.general_scenario(r, it, tier, variants=True, forge=False, disconnects=(fam == 3), dt_choices=(50_000_000, 500_000_000, 1_000_000_000))
                 sim.run(30, 1_000_000_000, {"c2s": Net(loss=1000), "s2c": Net(loss=1000)}, None)
@@ -152,6 +188,43 @@ def oracle(stream, cid, ops, outs):
                 if nsyn != 11 or term[0] - t0 < 22_000 * 10**6:
                     fails.append({"oracle": "handshake_budget", "detail": "client %d: handshake Error(Timeout) after %d SYNs, %d ms after connect()" % (i, nsyn, (term[0] - t0) // 10**6),
                                   "signature": {"oracle": "handshake_budget"}})
+    # disconnect attempts: 1 + 10 copies of the request, at least 2 s apart, Error(Timeout) not before 22 s after the first copy
+    for (side, dr) in (("s", "s2c"), ("c", "c2s")):
+        for i in sorted(set(q for (q, d) in log if d == dr)):
+            discs = [d["time"] for d in log.get((i, dr), []) if d["kind"] == "disc"]
+            if not discs:
+                continue
+            if side == "s":
+                term = next(((t, tag, x) for (t, tag, q, x) in sev if q == i and tag in ("D", "E") and t >= discs[0]), None)
+            else:
+                term = next(((t, tag, x) for (t, tag, x) in cev.get(i, []) if tag in ("D", "E") and t >= discs[0]), None)
+            gaps = [b - a for a, b in zip(discs, discs[1:])]
+            if any(g < 2_000 * 10**6 for g in gaps):
+                fails.append({"oracle": "disconnect_spacing", "detail": "%s side, peer %d: disconnect requests at %s ms are less than 2 s apart" %
+                              ("server" if side == "s" else "client", i, [t // 10**6 for t in discs]), "signature": {"oracle": "disconnect_spacing", "side": side}})
+                break
+            if term and term[1] == "E" and term[2] == "Timeout":
+                n = len([t for t in discs if t <= term[0]])
+                if n != 11 or term[0] - discs[0] < 22_000 * 10**6:
+                    fails.append({"oracle": "disconnect_budget", "detail": "%s side, peer %d: Error(Timeout) %d ms after the first disconnect request, after %d copies (budget: 11 copies, 22000 ms)" %
+                                  ("server" if side == "s" else "client", i, (term[0] - discs[0]) // 10**6, n), "signature": {"oracle": "disconnect_budget", "side": side}})
+                    break
+    # server side: Error(Timeout) of an established connection (no disconnect under way) only after active_timeout of silence
+    if sim.srv_cfg:
+        Ts = sim.srv_cfg["timeout"] * 10**6
+        for (te, tag, p, x) in sev:
+            if tag != "E" or x != "Timeout":
+                continue
+            tc = max([t for (t, g, q, _) in sev if g == "C" and q == p and t <= te] or [None], key=lambda v: -1 if v is None else v)
+            if tc is None:
+                continue
+            if any(d["kind"] == "disc" and tc <= d["time"] <= te for d in log.get((p, "s2c"), [])):
+                continue
+            rx = [tc] + [t for (t, dr, q, d) in delivered if dr == "c2s" and q == p and tc <= t <= te and d.get("kind") in ("D", "A", "S")]
+            if te - max(rx) < Ts:
+                fails.append({"oracle": "timeout_sound", "detail": "server: Error(Timeout) for peer %d at %d ms although a frame was received at %d ms (active_timeout %d ms)" %
+                              (p, te // 10**6, max(rx) // 10**6, Ts // 10**6), "signature": {"oracle": "timeout_sound", "side": "server"}})
+                break
     if getattr(sim, "expect_no_timeout", False):
         for (t, tag, p, x) in sev:
             if tag == "E":
